@@ -336,7 +336,7 @@ def strip_parens(s):
 class Eval:
     """symbolic evaluation of one unit"""
 
-    def __init__(self, atoms, features, types=None, uses=None, units=None, contracted=(), depth=0):
+    def __init__(self, atoms, features, types=None, uses=None, units=None, contracted=(), depth=0, owner=None):
         self.at = atoms
         self.features = features
         self.types = types or {}
@@ -346,6 +346,7 @@ class Eval:
         self.units = units or {}
         self.contracted = set(contracted)
         self.depth = depth
+        self.owner = owner          # type that owns the function being evaluated ("CertificateParams"), None for free functions
 
     def new_let(self, val, out, g, line):
         """a computed value. First pass: positional name. Second pass: used at most once -> substituted;
@@ -660,10 +661,23 @@ class Eval:
             return None
         callee = "".join(toks(n["callee"]))
         last = callee.split("::")[-1].split(".")[-1]
-        cands = [u for name, u in self.units.items() if name.split("::")[-1] == last and name not in self.contracted and u.get("writer")]
-        if len(cands) != 1:
+        # resolution is by name only, so it is restricted to what is unambiguous without type information:
+        # a free function `name(..)`, or a method of the current type written `self.name(..)` / `Self::name(..)`
+        if n.get("recv") is not None:
+            if canon(n["recv"], env) != "self" or not self.owner:
+                return None
+            want = self.owner + "::" + last
+        elif callee.startswith("Self::"):
+            if not self.owner or callee.count("::") != 1:
+                return None
+            want = self.owner + "::" + last
+        elif "::" in callee or "." in callee:
             return None
-        u = cands[0]
+        else:
+            want = last
+        u = self.units.get(want)
+        if u is None or want in self.contracted or not u.get("writer"):
+            return None
         if any("c" in a for a in n["args"]):
             return None
         params = [p for p in u["params"]]
@@ -685,7 +699,8 @@ class Eval:
                 if len(nm) != 1:
                     return None
                 e2[nm[0]] = canon(a["e"], env)
-        sub = Eval(self.at, self.features, uses=None if self.uses is None else {}, units=self.units, contracted=self.contracted, depth=self.depth + 1)
+        sub = Eval(self.at, self.features, uses=None if self.uses is None else {}, units=self.units, contracted=self.contracted, depth=self.depth + 1,
+                   owner=want.rsplit("::", 1)[0] if "::" in want else None)
         # lets inside an inlined helper are always substituted (their numbering is local to the helper)
         sub.uses = {} if self.uses is not None else None
         nf, _ = sub.walk(u["body"], e2, {}, g)
@@ -1147,11 +1162,12 @@ def count_uses(nf, at):
 
 def two_pass(u, units, enums, options, features, at2=None):
     at1 = Atoms(enums, options)
-    ev1 = Eval(at1, features, uses=None, units=units, contracted=contracted_units() - {u["unit"]})
+    owner = u["unit"].rsplit("::", 1)[0] if "::" in u["unit"] else None
+    ev1 = Eval(at1, features, uses=None, units=units, contracted=contracted_units() - {u["unit"]}, owner=owner)
     nf1, _ = ev1.walk(u["body"], {}, {}, z3.BoolVal(True))
     uses = count_uses(nf1, at1)
     at = at2 if at2 is not None else Atoms(enums, options)
-    ev2 = Eval(at, features, uses=uses, units=units, contracted=contracted_units() - {u["unit"]})
+    ev2 = Eval(at, features, uses=uses, units=units, contracted=contracted_units() - {u["unit"]}, owner=owner)
     nf2, _ = ev2.walk(u["body"], {}, {}, z3.BoolVal(True))
     return nf2, at
 
